@@ -705,6 +705,29 @@ def check_names(ctx, rep):
     from sa.report import RuleProxy
     c11.check_memo_keys(ctx, RuleProxy(rep, 'C02.N', 'memo::'), only=lambda m: m.name in (SMOD, AMOD, TMOD, 'torchtree.evolution.tree_likelihood'))
 
+def check_tip_state_clamp(ctx, rep):
+    """tip states are data_type.encoding(symbol) clamped at state_count — the index of the all-ones column the tip-state kernels append: clamped lower, a gap / unknown is
+    scored as the last real state; the bound may be spelled through a local name (resolved through its single assignment)"""
+    sp = ctx.prog.module('torchtree.evolution.site_pattern')
+    fn = sp.functions.get('compress_alignment_states')
+    if fn is None:
+        raise AnalysisError('compress_alignment_states not found')
+    assigned = {}
+    for st in ast.walk(fn):
+        if isinstance(st, ast.Assign) and len(st.targets) == 1 and isinstance(st.targets[0], ast.Name):
+            assigned.setdefault(st.targets[0].id, []).append(st.value)
+    clamps = [c for c in ast.walk(fn) if isinstance(c, ast.Call) and method_name(c) in ('clamp', 'clip')]
+    ok = False
+    for c in clamps:
+        mx = next((kw.value for kw in c.keywords if kw.arg == 'max'), c.args[2] if len(c.args) > 2 else None)
+        if isinstance(mx, ast.Name) and len(assigned.get(mx.id, [])) == 1:
+            mx = assigned[mx.id][0]
+        enc = any(isinstance(x, ast.Call) and method_name(x) == 'encoding' for x in ast.walk(c))
+        ok = ok or (mx is not None and ast.unparse(mx).endswith('data_type.state_count') and enc)
+    rep.check('C02.M', 'compress_alignment_states::clamped-at-state-count', ok, where(sp, fn), None,
+              "tip states must be data_type.encoding(symbol) clamped to state_count (the index of the all-ones column)")
+
+
 def check_lookup_datatypes(ctx, rep):
     """data types whose encoding is not a class-level table (GeneralDataType: dictionaries built per instance; CodonDataType: computed): with ambiguities off, partial()
     must call a symbol definite exactly when encoding() does — it either derives its answer from self.encoding(...) or tests membership in the very table encoding() reads"""
@@ -851,19 +874,7 @@ def run(ctx, rep):
     from props import c03
     from sa.report import RuleProxy
     c03.check_scalers(ctx, RuleProxy(rep, 'C02.W', 'scalers::'))
-    # clamp at state_count
-    sp = ctx.prog.module('torchtree.evolution.site_pattern')
-    fn = sp.functions.get('compress_alignment_states')
-    if fn is None:
-        raise AnalysisError('compress_alignment_states not found')
-    clamps = [c for c in ast.walk(fn) if isinstance(c, ast.Call) and method_name(c) in ('clamp', 'clip')]
-    ok = False
-    for c in clamps:
-        mx = next((kw.value for kw in c.keywords if kw.arg == 'max'), c.args[2] if len(c.args) > 2 else None)
-        enc = any(isinstance(x, ast.Call) and method_name(x) == 'encoding' for x in ast.walk(c))
-        ok = ok or (mx is not None and ast.unparse(mx).endswith('data_type.state_count') and enc)
-    rep.check('C02.M', 'compress_alignment_states::clamped-at-state-count', ok, where(sp, fn), None,
-              "tip states must be data_type.encoding(symbol) clamped to state_count (the index of the all-ones column)")
+    check_tip_state_clamp(ctx, rep)
     # kernels: one ones-column appended on the last axis, gathered on the last axis
     lm = ctx.prog.module(MODULE)
     n = 0
